@@ -32,9 +32,9 @@ impl Prop for C11 {
         any::<bool>()
             .prop_flat_map(|g| {
                 let t = if g {
-                    prop_oneof![4 => gen::stable_text(16), 1 => gen::text(10)].boxed()
+                    prop_oneof![12 => gen::stable_text(16), 3 => gen::text(10), 1 => gen::stable_text(120)].boxed()
                 } else {
-                    gen::text(14).boxed()
+                    prop_oneof![15 => gen::text(14), 1 => gen::text(100)].boxed()
                 };
                 t.prop_map(move |s| Case { s, graphemes: g })
             })
